@@ -126,7 +126,15 @@ func (g *ArrayFieldGenerator) Generate(value client.NormalValue, f func(client.N
 type JSONFieldGenerator struct{}
 
 func (g *JSONFieldGenerator) Generate(value client.NormalValue, f func(client.NormalValue) error) error {
-	json, _ := value.JSON()
+	json, ok := value.JSON()
+	if !ok {
+		// a document without a value for the field is indexed like an explicit JSON null
+		var err error
+		json, err = client.NewJSON(nil)
+		if err != nil {
+			return err
+		}
+	}
 	return client.TraverseJSON(json, func(value client.JSON) error {
 		val, err := client.NewNormalValue(value)
 		if err != nil {
